@@ -278,7 +278,7 @@ def _behaviour_ep(name, loc, body):
                 kwargs[py] = argval
             if body:
                 kwargs["body"] = models.In.from_dict({"payload": "Wp"})
-            for variant in ("sync_detailed", "asyncio"):
+            for variant in wire.VARIANTS:      # all four: the plain variants call the detailed ones by name
                 r = wire.call(mod, variant, lambda: wire.make_client(sb, cap), cap, kwargs)
                 if r is None:
                     continue
